@@ -138,8 +138,9 @@ class C09(UdpCheck):
             who = rng.choice(["send", "ssend"])
             c = rng.randrange(n)
             retry = rng.choice([0, 0, 1, -1])
+            exact = rng.random() < 0.5
             for j in range(cnt):
-                plan.append({"op": who, "c": c, "t": t, "len": ln if rng.random() < 0.9 else rng.randrange(0, 40),
+                plan.append({"op": who, "c": c, "t": t, "len": ln if exact or rng.random() < 0.9 else rng.randrange(0, 40),
                              "kind": 0, "retry": retry, "cb": False, "api": "send"})
         # mixed sizes queued together (packing boundaries)
         room = limits(cfg["mtu"])["room"]
@@ -173,7 +174,7 @@ class C09(UdpCheck):
             elif e["where"].startswith("send") and e["op"].get("len", 0) <= 8 * 1024 * 1024:
                 vs.append({"kind": "send_raised", "key": "%s:%s" % (e["where"], e["type"]), "detail": e})
         for t, msg, et, es in w.seams.logged_errors:
-            if "unable to encode" in msg or "client update" in msg or et in ("struct.error", "error", "UnboundLocalError"):
+            if "unable to encode" in msg or "client update" in msg or "reactor:" in msg or et in ("struct.error", "error", "UnboundLocalError"):
                 vs.append({"kind": "server_send_path_raised", "key": "%s" % et, "detail": {"t": t, "msg": msg, "exc": es}})
         for name, typ, msg in w.thread_exits:
             if typ != "SimAbort":
